@@ -43,6 +43,10 @@ CHECKS = {
    technique="exhaustive enumeration of argument vectors up to a length bound over a vocabulary x stdin contents x stdout kinds, run through the real binary, against a reference model of the command line plus the library's verdict",
    text="Every argv up to the length bound over the vocabulary, with translatable/malformed/empty stdin and stdout a pipe, file or pty: exit 2 exactly for invalid command lines (usage on stderr, nothing on stdout), exit 0 exactly when help/version is served or every input translates (stdout equals the help text / the library's bytes), exit 1 otherwise with 'xt error' naming the failing input and stdout a prefix of the library's bytes; MessagePack never reaches a terminal; never a signal.",
    note="Trusted: the harness's reference model of conventional option parsing (written from doc/xt.1), openpty for the terminal case. Unreadable (mode 000) files are not produced (the sandbox runs as root)."),
+ "C14": dict(cat="exploration", design="4.14",
+   technique="exhaustive product enumeration (-f x file-name spellings x contents x supply kinds x targets) through the real binary, compared with the library run in-process for the source the reference rule resolves",
+   text="For the full product of -f option, extension spelling in every letter case, multi-dot / hidden / extension-less / misleading names, contents of each format (and ambiguous, invalid, empty), regular file / FIFO / stdin / '-' supply and all targets: stdout and exit status equal the library's result for the source resolved by -f > extension > detection; '-' at every position, '-' twice, directories and nested paths agree with one in-process Translator.",
+   note="Trusted: std::path extension semantics for 'last extension'; the library as the oracle for bytes (its own correctness is C01-C12's subject)."),
 }
 
 NOT_YET = "check not built yet (planned in DESIGN.md section 4); not claimed until registered under checks"
